@@ -407,11 +407,9 @@ def gen_library(rng, tier):
     if r < 0.3:
         opts['yinv'] = True
     elif r < 0.45 and ncontig > 1:
-        opts['skip'] = rng.randint(1, ncontig)
-        shape = rng.choice(['tuple', 'list1'])
+        opts['skip'] = rng.randint(1, ncontig)          # with every item shape, incl. bare AlignedSegments (D62)
     elif r < 0.6:
         opts['minmq'] = 1
-        shape = rng.choice(['tuple', 'list1'])
     if rng.random() < 0.15:
         opts['maxfs'] = rng.choice([8, 12, 14])
     return {'kind': kind, 'hd': hd, 'radius': radius, 'cap': cap, 'pooling': pooling, 'readlen': rlen,
@@ -554,8 +552,8 @@ def directed_libraries():
 
 
 def probes(emit, tid):
-    """Newly reached code that the current tree fails on but that is outside C06's statement: recorded as observations
-    (@@NOTE), never judged.  A documented input form (bare AlignedSegment items) combined with the iterator's input filters."""
+    """A documented input form (bare AlignedSegment items) combined with the iterator's input filters (D62: raised TypeError
+    before the fix).  Two copies of one molecule, nothing is filtered: judged like any run (no raise, one molecule)."""
     from singlecellmultiomics.molecule import MoleculeIterator, Molecule
     from singlecellmultiomics.fragment import Fragment
     d = {'cell': 1, 'umi': [0, 1, 2], 'dup': False}
